@@ -2,8 +2,10 @@
 """usage: seed_keep.py PROP K detected(yes/no) "needs" "ran" -- stores a confirmed seeded change under /verif/seeded/"""
 import json, os, shutil, sys
 prop, k, detected, needs, ran = sys.argv[1:6]
-src = f"/tmp/seed/{prop}.out"
-dst = f"/verif/seeded/{prop}_{k}"
+import os as _os
+src = _os.environ.get("SEEDDIR", "/tmp/seed") + f"/{prop}.out"
+kk = int(k) + int(_os.environ.get("SEEDOFFSET", "0"))
+dst = f"/verif/seeded/{prop}_{kk}"
 os.makedirs(dst, exist_ok=True)
 shutil.copy(f"{src}/patch{k}.diff", f"{dst}/patch.diff")
 shutil.copy(f"{src}/demo{k}.py", f"{dst}/demo.py")
